@@ -85,7 +85,7 @@ class AttrMismatch(py4hw.Logic):
 
 class TernarySeq(py4hw.Logic):
     """conditional expression assigned to a state variable"""
-    expect = 'parse'
+    expect = 'ok'   # 'parse' before /repo 760fbc8
 
     def __init__(self, parent, name, a, q):
         super().__init__(parent, name)
